@@ -172,7 +172,15 @@ def coq_props(project, propfile):
             ax = re.findall(r"^([A-Za-z0-9_.']+)\s*:", b, flags=re.M)
             res.append({"theorem": nm, "assumptions": ax})
     missing = [n for n in names if n.startswith("C") and n not in pa and not n.endswith("_example")]
-    return {"theorems": names, "assumptions": res, "unprinted": missing, "log": out}
+    return {"theorems": names, "assumptions": res, "unprinted": missing, "log": out, "project": project, "propfile": propfile}
+
+
+def coqchk(project, propfile):
+    """Independent re-check of the compiled property file and everything it depends on (thorough tier)."""
+    logical = dict(existing_projects())[project] + ".Props." + propfile
+    with Lock("coqchk"):
+        rc, out = sh(["timeout", "3000", "coqchk", "-silent", "-o"] + qflags() + [logical], cwd=COQ, timeout=3100)
+    return rc, out
 
 
 def coq_eval(workdir, name, vtext, timeout=1200):
@@ -256,6 +264,12 @@ class Ctx:
                 ok += 1
         self.cov["obligations"] += n
         self.cov["discharged"] += ok
+        if self.tier == "thorough" and info.get("project"):
+            rc, out = coqchk(info["project"], info["propfile"])
+            self.cov.setdefault("coqchk", []).append({"file": info["project"] + "/Props/" + info["propfile"], "exit": rc,
+                                                      "tail": out[-1500:]})
+            if rc != 0:
+                self.violations.append(({"kind": "coqchk-failed", "file": info["propfile"], "detail": out[-3000:]}, True))
         self.cov.setdefault("theorems", []).extend(
             [{"name": a["theorem"], "axioms": a["assumptions"]} for a in info["assumptions"]])
 
